@@ -38,7 +38,7 @@ import (
 //	 "deposit":every deposit data signature verifies under its validator key}
 //
 // followed by the Check event over (lock public shares, keystore secret shares) per node.
-func runFull(t *testing.T, tr *drv.Tracer, sid int, cfg drv.Step) bool {
+func runFull(t *testing.T, tr sink, sid int, cfg drv.Step) bool {
 	t.Helper()
 	n, thr, nv, p, seed := drv.Num(cfg["n"]), drv.Num(cfg["t"]), drv.Num(cfg["V"]), drv.Num(cfg["p"]), drv.Num(cfg["seed"])
 	tr.Emit(drv.Step{"ev": "Reset", "sid": sid, "n": n, "t": thr, "V": nv, "p": p, "mode": "full", "c": cfg["c"]})
@@ -89,11 +89,13 @@ func runFull(t *testing.T, tr *drv.Tracer, sid int, cfg drv.Step) bool {
 	}
 	run := make([]bool, n)
 	allOK := true
+	errTxt := []string{}
 	for k := 0; k < n; k++ {
 		select {
 		case e := <-errs:
 			run[e[0].(int)] = e[1] == nil
 			if e[1] != nil {
+				errTxt = append(errTxt, fmt.Sprint(e[1]))
 				allOK = false
 				cancel()
 			}
@@ -158,7 +160,7 @@ func runFull(t *testing.T, tr *drv.Tracer, sid int, cfg drv.Step) bool {
 		}
 		results[i+1] = result{shares: shares}
 	}
-	tr.Emit(drv.Step{"ev": "Full", "run": run, "hashes": hashes, "sigs": sigs, "samelock": samelock && allOK, "deposit": dep && allOK})
+	tr.Emit(drv.Step{"ev": "Full", "run": run, "hashes": hashes, "sigs": sigs, "samelock": samelock && allOK, "deposit": dep && allOK, "errs": errTxt})
 	if len(results) != n {
 		tr.Emit(drv.Step{"ev": "Abort"})
 		return false
